@@ -12,6 +12,7 @@ import re
 import subprocess
 import sys
 import time
+import random  # noqa (re-exported: common.random)
 import traceback
 from fractions import Fraction
 
